@@ -215,9 +215,18 @@ def probe_dates(models, root, leaves, rng, extra=()):
 
 
 def c06_check_all(res, step, root, tree, models, leaves, dates, what):
-    """C06.value / C06.order / C06.group / C06.scale over every leaf at every probe date."""
+    """C06.value / C06.order / C06.group / C06.scale over every leaf at every probe date
+    (after an update: every date for the parameter that was updated and for its own entry
+    dates, a rotating third of the dates for the others - they were all looked at in full
+    right after loading)."""
+    all_dates = dates
+    touched = tuple(what[1]) if isinstance(what, list) and len(what) > 1 and isinstance(what[1], list) else None
     for path, _ in leaves:
         path = tuple(path)
+        dates = all_dates
+        if step >= 0 and touched is not None and path != touched and len(all_dates) > 30:
+            own = set(models[path].dates())
+            dates = [d for k, d in enumerate(all_dates) if k % 3 == step % 3 or d in own]
         param = get_param(root, path, by_attribute=(len(dates) + len(path)) % 2 == 1)
         m = models[path]
         res.count("clause:C06.order")
@@ -231,6 +240,7 @@ def c06_check_all(res, step, root, tree, models, leaves, dates, what):
             if got != m.at(d):
                 res.violate("C06.value", step, path=list(path), date=d, expected=m.at(d), got=got, after=what)
                 return
+    dates = all_dates
     # groups expose exactly the members defined at the date
     for gpath in (("g",), ("g", "h"), ("flags",), ()):
         node = get_param(root, gpath) if gpath else root
